@@ -50,8 +50,10 @@ def get_table(direction, state):
 
 
 def _ctx(v):
-    from minecraft.networking.connection import ConnectionContext
-    return ConnectionContext(protocol_version=v)
+    # one shared context reassigned per use (as Connection.connect() does),
+    # so that per-context memoisation of ids/tables cannot hide
+    from props import c04_position as P4
+    return P4.ctx_for(v)
 
 
 def _cname(c):
